@@ -15,7 +15,7 @@ Src6 == {"uni", "ll", "mcast", "unspec", "loop"}
 \* group of another host, equal to ours in the last 16 bits but not in the 24 that define the group
 Dst6 == {"own", "own2", "own-ll", "other", "other-tail", "all-nodes", "sol-node", "sol-other", "mc-other", "unspec", "loop"}
 Protos == {"echo", "icmp-err", "udp-open", "udp-bound", "udp-closed", "syn-open", "syn-bound", "syn-closed", "ack-closed", "rst-closed", "unknown",
-           "ns", "mld-query", "igmp-query", "hbh-unk"}
+           "ns", "mld-query", "igmp-query", "hbh-unk", "hbh-err"}
 \* "opts": a clean IPv4 header carrying four octets of options; "ip-opt": the same with one bit of the options flipped
 Corrupt == {"none", "ip-hdr", "l4", "udp0", "opts", "ip-opt"}
 
@@ -29,6 +29,8 @@ Rows == { r \in [m : Media, ld : LinkDst, v : {4, 6}, s : Src4 \cup Src6, d : Ds
             \* "hbh-unk": a UDP datagram for the open port behind a hop-by-hop header with an unknown option of the kind
             \* "discard, and report to a unicast sender": IPv6 only, never corrupted
             /\ (r.p = "hbh-unk" => r.v = 6 /\ r.c = "none")
+            \* "hbh-err": the same header in front of an ICMPv6 error message (destination unreachable): no error may answer it
+            /\ (r.p = "hbh-err" => r.v = 6 /\ r.c = "none")
             \* queries: the version that has them, and only where they mean something (a solicitation for an own address, a
             \* general query to the all-hosts / all-nodes group from an on-link / link-local router)
             /\ (r.p = "igmp-query" => r.v = 4 /\ r.d = "mc-all" /\ r.s = "uni-on" /\ r.ld \in {"own", "mcast"})
